@@ -9,7 +9,9 @@ rm -rf $S; mkdir -p $S $OUT
 cp -r /repo/src /repo/tests /repo/pyproject.toml /repo/tox.ini $S/ 2>/dev/null
 cd $S && git init -q . && git add -A >/dev/null && git -c user.email=a@b -c user.name=x commit -qm base
 APPLY=ok
-git apply $SRC/patch.diff 2>/dev/null || patch -p1 -s --fuzz=3 < $SRC/patch.diff >/dev/null 2>&1 || APPLY=failed
+PORTED=""
+if [ -f $SRC/patch_ported.diff ]; then git apply $SRC/patch_ported.diff || APPLY=failed; PORTED="ported by hand to the repaired tree (the agent's patch was written against the tree before the fix: commits)"
+else git apply $SRC/patch.diff 2>/dev/null || patch -p1 -s --fuzz=3 < $SRC/patch.diff >/dev/null 2>&1 || APPLY=failed; fi
 if [ "$APPLY" = failed ]; then echo "$ID: PATCH DOES NOT APPLY"; echo "{\"id\": \"$ID\", \"status\": \"patch does not apply to the current tree\"}" > $OUT/meta.json; rm -rf $S; exit 0; fi
 find . -name '*.orig' -delete; find . -name '*.rej' -delete
 git diff > $OUT/patch.diff
@@ -18,19 +20,22 @@ cp $SRC/demo.py $OUT/demo.py; cp $SRC/notes.md $OUT/notes.md 2>/dev/null
 (cd /tmp && PYTHONPATH=/repo/src timeout 300 /venv/bin/python $OUT/demo.py >/dev/null 2>&1); D0=$?
 (cd /tmp && PYTHONPATH=$S/src timeout 300 /venv/bin/python $OUT/demo.py >/dev/null 2>&1); D1=$?
 # the existing test suite without the two admin files (they bind a fixed port)
+OLDT=$(python3 -c "import json;m=json.load(open('$OUT/meta.json'));print(m.get('tests_without_admin_files',''))" 2>/dev/null)
+if [ -n "$REUSE_TESTS" ] && echo "$OLDT" | grep -q passed; then T="$OLDT"; else
 T=$(cd $S && PYTHONPATH=$S/src timeout 1500 /venv/bin/python -m pytest -q -p no:cacheprovider --timeout=900 --ignore=tests/common/test_admin.py --ignore=tests/async/test_admin.py 2>&1 | tail -1)
+fi
 RES=""
 for C in $CHECKS; do
   R=$(cd /verif && VERIF_REPO_ROOT=$S PYVC_FN_BUDGET=400 timeout 1500 python3-vt -m pyvc.run $C --norecord 2>&1 | grep -v WARNING | grep "^$C:\|^VIOLATION\|^UNVERIFIABLE" | head -8 | tr '\n' '|' | cut -c1-900)
   RES="$RES $R"
 done
-python3 - "$ID" "$P" "$D0" "$D1" "$T" "$RES" "$CHECKS" <<'PY'
+python3 - "$ID" "$P" "$D0" "$D1" "$T" "$RES" "$CHECKS" "$PORTED" <<'PY'
 import json,sys,re
-id_,p,d0,d1,t,res,checks=sys.argv[1:8]
+id_,p,d0,d1,t,res,checks,ported=sys.argv[1:9]
 m=re.findall(r'exit (\d)',res)
 meta={'id':id_,'breaks_property':p,'demo_exit_unmodified':int(d0),'demo_exit_with_patch':int(d1),'tests_without_admin_files':t.strip(),
       'checks_run':checks.split(),'check_output':res.strip(),'check_exit_codes':[int(x) for x in m],
-      'detected': any(x=='1' for x in m), 'what_i_ran':'tools/vet_seed.sh: patch applied to a scratch copy of /repo HEAD; demo.py on unmodified and patched tree; pytest without the two admin test files; ./check with VERIF_REPO_ROOT=<scratch>'}
+      'detected': any(x=='1' for x in m), 'ported': ported, 'what_i_ran':'tools/vet_seed.sh: patch applied to a scratch copy of /repo HEAD; demo.py on unmodified and patched tree; pytest without the two admin test files; ./check with VERIF_REPO_ROOT=<scratch>'}
 json.dump(meta,open('/verif/seeded/%s/meta.json'%id_,'w'),indent=1)
 print(id_,'demo',d0,d1,'|',t.strip()[-40:],'| detected' if meta['detected'] else '| NOT detected', m)
 PY
